@@ -133,25 +133,36 @@ def inprocess_pipeline(impl, text):
     return None
 
 
-def run_exe(kind, args, cwd, env=None, timeout=120, sigint_after=None):
+NODAC = '[file permissions enforced] '
+
+
+def run_exe(kind, args, cwd, env=None, timeout=120, sigint_after=None, nodac=False):
     if kind == 'bin':
         argv = [common.PY, os.path.join(common.REPO, 'bin', 'ddsmt')] + args
         e = dict(os.environ, PYTHONPATH='')
     else:
         argv = [common.PY, '-m', 'ddsmt'] + args
         e = dict(os.environ, PYTHONPATH=common.REPO)
+    if nodac:
+        # root ignores permission bits: drop the two capabilities that make it do so
+        import shlex
+        argv = ['capsh', '--drop=cap_dac_override,cap_dac_read_search', '--', '-c', shlex.join(argv)]
     e.update(env or {})
     e['TMPDIR'] = cwd
     # a background shell leaves SIGINT ignored, which Python inherits: start the child with the default disposition
     p = subprocess.Popen(argv, cwd=cwd, env=e, stdout=subprocess.PIPE, stderr=subprocess.PIPE, text=True,
-                         preexec_fn=lambda: signal.signal(signal.SIGINT, signal.SIG_DFL))
+                         preexec_fn=lambda: (os.setsid(), signal.signal(signal.SIGINT, signal.SIG_DFL)))
     if sigint_after is not None:
         time.sleep(sigint_after)
         p.send_signal(signal.SIGINT)
     try:
         out, err = p.communicate(timeout=timeout)
     except subprocess.TimeoutExpired:
-        p.kill()
+        # workers that outlive the main process keep the pipes open: kill the whole session
+        try:
+            os.killpg(p.pid, signal.SIGKILL)
+        except OSError:
+            p.kill()
         out, err = p.communicate()
         return None, out, err
     return p.returncode, out, err
@@ -315,13 +326,42 @@ def run(ctx):
             ('input file is not valid UTF-8, --parser-test', ['--parser-test', badutf, out], mkinv(in_decodable=0, parser_test=1, has_cmd=0)),
             ('cross-check golden run lacks --match-out-cc', ['-c', ' '.join(cmd), '--match-out-cc', 'nosuchstring', good, out] + cmd, mkinv(has_cc=1, golden_has_match=0)),
             ('cross-check golden run lacks --match-err-cc', ['-c', ' '.join(cmd), '--match-err-cc', 'nosuchstring', good, out] + cmd, mkinv(has_cc=1, golden_has_match=0)),
+            # limits the system calls cannot take (poll() counts milliseconds in a C int; prlimit() takes no negative numbers)
+            ('--timeout 3000000', ['--timeout', '3000000', good, out] + cmd, mkinv(limits_ok=0)),
+            ('--timeout=-1e99', ['--timeout=-1e99', good, out] + cmd, mkinv(limits_ok=0)),
+            ('--timeout=-inf', ['--timeout=-inf', good, out] + cmd, mkinv(limits_ok=0)),
+            ('--timeout-cc=-1e99', ['-c', ' '.join(cmd), '--timeout-cc=-1e99', good, out] + cmd, mkinv(has_cc=1, limits_ok=0)),
+            ('--memout negative', ['--memout=-99999999999999', good, out] + cmd, mkinv(limits_ok=0)),
+            ('--timeout 2000000 (fine)', ['--timeout', '2000000', good, out] + cmd, mkinv()),
+            # output paths beside which no temporary file can be created
+            ('output file name close to NAME_MAX', [good, os.path.join(d, 'o' * 245 + '.smt2')] + cmd, mkinv(out_ok=0)),
+            ('output path with a trailing slash', [good, os.path.join(d, 'newout') + '/'] + cmd, mkinv(out_ok=0)),
+            ('output file below /proc', [good, '/proc/out.smt2'] + cmd, mkinv(out_ok=0)),
             ('several usage errors at once', ['-j', '0', '-c', noexec, good, good, noexec], mkinv(out_is_in=1, cmd_exec=0, has_cc=1, cc_exec=0, jobs_ok=0)),
         ]
+        if shutil.which('capsh'):
+            unread = os.path.join(d, 'unreadable.smt2')
+            shutil.copy(good, unread)
+            os.chmod(unread, 0)
+            xonly = os.path.join(d, 'xonly.sh')
+            shutil.copy(cmd[0], xonly)
+            os.chmod(xonly, 0o111)
+            rodir = os.path.join(d, 'rodir')
+            os.mkdir(rodir)
+            open(os.path.join(rodir, 'out.smt2'), 'w').close()
+            os.chmod(os.path.join(rodir, 'out.smt2'), 0o666)
+            os.chmod(rodir, 0o555)
+            cases += [
+                (NODAC + 'input file without read permission', [unread, out] + cmd, mkinv(in_decodable=0)),
+                (NODAC + 'input file without read permission, --parser-test', ['--parser-test', unread, out], mkinv(in_decodable=0, parser_test=1, has_cmd=0)),
+                (NODAC + 'command without read permission', [good, out, xonly] + cmd[1:], mkinv(cmd_runs=0)),
+                (NODAC + 'writable output file in a directory without write permission', [good, os.path.join(rodir, 'out.smt2')] + cmd, mkinv(out_ok=0)),
+            ]
         mcalls = [(45, inv) for _, _, inv in cases]
         mres = model.batch(mcalls)
         for (name, args, inv), (status, lines) in zip(cases, mres):
             for kind in ('bin', 'module'):
-                rc, so, se = run_exe(kind, args, d)
+                rc, so, se = run_exe(kind, args, d, nodac=name.startswith(NODAC))
                 ctx.case(['exe', kind, name], True, sample=dict(invocation=name, executable=kind, status=rc, stdout=so.strip()[:120]) if kind == 'bin' and len(ctx.samples) < 6 else None)
                 ctx.count('executable invocations')
                 problems = []
@@ -387,6 +427,27 @@ def run(ctx):
                 if problems:
                     ctx.violation('impl-violation', input='SIGINT after 2 s', executable=kind, argv=strat, observed='; '.join(problems),
                                   expected='one-line "[ddsmt] interrupted", exit status 1, temporary directory removed')
+        # the command cannot be started for ONE candidate in the middle of the run (its private copy vanishes for a moment:
+        # a tmp cleaner, a wrapper replacing itself, a transient exec failure): that candidate is lost, nothing else
+        for strat in (['--strategy', 'hierarchical', '-j', '2'], ['--strategy', 'ddmin', '-j', '1'], ['--strategy', 'ddmin', '-j', '3']):
+            counter = os.path.join(d, 'count-' + ''.join(strat).replace('-', ''))
+            vanish = os.path.join(d, 'vanish.sh')
+            # the 4th invocation removes the executable (ddSMT's private copy): every later start fails with ENOENT
+            open(vanish, 'w').write('#!/bin/sh\nn=$(cat "$CNT" 2>/dev/null || echo 0); n=$((n+1)); echo $n > "$CNT"\n'
+                                    'if [ $n -eq 4 ]; then rm -f "$0"; fi\n'
+                                    'grep -q x "$1" && { echo bug; exit 1; }\necho ok\n')
+            os.chmod(vanish, 0o755)
+            rc, so, se = run_exe('bin', strat + [big, out, vanish], d, env={'CNT': counter}, timeout=90)
+            ctx.case(['vanishing command', strat], True)
+            ctx.count('runs with a command that cannot be started once')
+            problems = []
+            if rc is None:
+                problems.append('ddSMT did not finish within 90 s (a lost task is waited for for ever)')
+            elif rc != 0:
+                problems.append(f'exit status {rc}; output tail {(so + se)[-300:]!r}')
+            if problems:
+                ctx.violation('impl-violation', input='30 assertions; the command cannot be started for one candidate', argv=strat, observed='; '.join(problems),
+                              expected='the run completes with exit status 0: a candidate whose check fails costs only that candidate')
     finally:
         shutil.rmtree(d, ignore_errors=True)
     ctx.assumptions += ['exceptions inside worker processes are caught by the strategies\' guards (modelled: mutator_isolated)',
